@@ -19,7 +19,7 @@ func (c12) NumCases(tier string) int {
 	if tier == "thorough" {
 		return 400_000
 	}
-	return 5_000
+	return 4_000
 }
 
 func (c12) Describe() CheckInfo {
@@ -35,7 +35,7 @@ func (c12) Describe() CheckInfo {
 		},
 		RealCode:       []string{"gopatch main()/mainCmd.Run, preview/printComments, patch.Parse/File.Apply, pkg/diff, x/tools/imports, internal/*"},
 		Stubs:          []string{"package os (simulated filesystem, streams, exit)", "path/filepath walk", "io/ioutil"},
-		RequiredProbes: []string{"agree-inplace-vs-print", "agree-diff-applied", "agree-api", "agree-verbose", "agree-refused-file", "description-on-stderr", "multi-file-print", "dry-fault-fired", "dry-kill", "dry-stdout-fail", "noncanonical-matched-file", "large-file", "agree-respelled-duplicate-arg", "agree-api-result-held", "agree-hard-linked-targets"},
+		RequiredProbes: []string{"agree-inplace-vs-print", "agree-diff-applied", "agree-api", "agree-verbose", "agree-refused-file", "description-on-stderr", "multi-file-print", "dry-fault-fired", "dry-kill", "dry-stdout-fail", "noncanonical-matched-file", "large-file", "agree-respelled-duplicate-arg", "agree-api-result-held", "agree-hard-linked-targets", "agree-name-near-name-max"},
 	}
 }
 
@@ -85,7 +85,13 @@ func (c12) Gen(env *Env, seed uint64, tier string, i int) *Case {
 				data = append(data, []byte(filler.String())...)
 				env.Probe("large-file")
 			}
-			c.AddFile(fmt.Sprintf("%smt%d.go", dir, j), data, "match", ms, style)
+			name := fmt.Sprintf("%smt%d.go", dir, j)
+			if r.Chance(1, 12) {
+				// a base name close to NAME_MAX (255 bytes): still a perfectly legal file
+				name = fmt.Sprintf("%s%s%d.go", dir, strings.Repeat("L", 245), j)
+				c.Extra["long_name"] = "1"
+			}
+			c.AddFile(name, data, "match", ms, style)
 		} else {
 			style := r.Pick(Styles)
 			c.AddFile(fmt.Sprintf("%snm%d.go", dir, j), NonMatchingFile(r, style, ""), "nomatch", nil, style)
@@ -169,6 +175,9 @@ func c12Agree(env *Env, c *Case) (vs []Violation) {
 	}
 	if c.Extra["hardlink_target"] == "1" {
 		env.Probe("agree-hard-linked-targets")
+	}
+	if c.Extra["long_name"] == "1" {
+		env.Probe("agree-name-near-name-max")
 	}
 	add := func(oracle, sig, detail string) {
 		vs = append(vs, Violation{Oracle: oracle, Signature: "C12/" + oracle + "/" + sig, Detail: detail})
